@@ -56,7 +56,7 @@ class Stage:
 
     def make(self, targets=("all",), subdir="."):
         t = time.time()
-        args = ["make", "-j16"] + list(targets)
+        args = ["make", "-j%d" % int(os.environ.get("VERIF_JOBS", "16"))] + list(targets)
         if self.hooks:
             r = subprocess.run("grep -rlF --include=*.cc --include=*.h --include=*.c --include=*.cci %s src lib compat include tools 2>/dev/null || true" % GUARD,
                                shell=True, cwd=self.repo, capture_output=True, text=True)
